@@ -138,7 +138,27 @@ def selection_loops(fn, P=None, cls=None):
                 else:
                     actions.append((s, rn(s, {v: 'E_'})))
         flat(loop.body)
-        out.append({'loop': loop, 'sources': sources, 'preds': preds, 'actions': actions})
+        out.append({'loop': loop, 'sources': sources, 'preds': preds, 'actions': actions, 'iter_name': loop.iter.id if isinstance(loop.iter, ast.Name) else None})
+    # a loop whose only effect is `<local list>.append(<element>)` builds a selection: the loop over that local inherits its
+    # sources and predicates (for + if + append is the spelled-out form of the comprehension)
+    empties = {t.id for n in ast.walk(fn) if isinstance(n, ast.Assign) and isinstance(n.value, ast.List) and not n.value.elts for t in n.targets if isinstance(t, ast.Name)}
+    builders = {}
+    for l in out:
+        if len(l['actions']) == 1:
+            t = l['actions'][0][1]
+            for L in empties:
+                if t == f'{L}.append(E_)' and l['sources'] is not None:
+                    builders[L] = l
+    if builders:
+        res = []
+        for l in out:
+            if any(l is b for b in builders.values()):
+                continue
+            b = builders.get(l['iter_name'])
+            if b is not None and not l['preds'] or (b is not None and l['sources'] is None):
+                l = dict(l, sources=b['sources'], preds=b['preds'] + l['preds'])
+            res.append(l)
+        out = res
     return out
 
 
